@@ -30,7 +30,16 @@ def main(argv):
         tier = argv[1] if len(argv) > 1 else os.environ.get("VERIF_TIER", "quick")
         mod = importlib.import_module(f"mbt.{pid.lower()}")
         core.build_repo()
+        # binding self-test first: a check whose conformance step cannot fail decides nothing
+        import io, contextlib
+        buf = io.StringIO()
+        with contextlib.redirect_stdout(buf):
+            st = mod.selftest()
+        if st != 0:
+            print(buf.getvalue())
+            raise core.MachineryError("binding self-test failed")
         v = core.Verdict(pid, tier, seed)
+        v.notes["binding_selftest"] = "passed: " + buf.getvalue().strip().splitlines()[-1][:160]
         return mod.run(v)
     except core.MachineryError as e:
         print(f"MACHINERY-FAILURE: {e}")
